@@ -70,8 +70,77 @@ def xorInto (b : Bytes) (lo hi : Int) (x y : Bytes) : Bytes :=
     b.take lo.toNat ++ Bytes.xor x y ++ b.drop (lo.toNat + min x.length y.length)
   else []
 
+/-- `cipher.Block.Encrypt(b[lo:hi], src)` / `Decrypt` for a block function `E` with block size `bs` (16 for AES): the first
+    `bs` bytes of `src` are transformed into the first `bs` bytes of the window; Go panics if either is shorter than a block.
+    (`src` is the value read before the store; Go demands exact or no overlap, which the translator checks syntactically.
+    `E` is assumed to return `bs` bytes — a hypothesis of the tie theorems.) -/
+def blockInto (bs : Nat) (E : Bytes → Bytes) (b : Bytes) (lo hi : Int) (src : Bytes) : Bytes :=
+  if 0 ≤ lo ∧ lo + Int.ofNat bs ≤ hi ∧ hi ≤ len b ∧ bs ≤ src.length then
+    b.take lo.toNat ++ E (src.take bs) ++ b.drop (lo.toNat + bs)
+  else []
+
+/-- `stream.XORKeyStream(b[lo:hi], src)` and similar length-preserving transformations `F`: `len src` bytes are written
+    at the start of the window; Go panics if the window is shorter than `src`.  (`F` is assumed length-preserving — a
+    hypothesis of the tie theorems.) -/
+def applyInto (F : Bytes → Bytes) (b : Bytes) (lo hi : Int) (src : Bytes) : Bytes :=
+  if 0 ≤ lo ∧ lo + Int.ofNat src.length ≤ hi ∧ hi ≤ len b then
+    b.take lo.toNat ++ F src ++ b.drop (lo.toNat + src.length)
+  else []
+
+/-- `x[i] = v` for a view `x = b[lo:hi]` (a slice variable sharing memory with `b`): index checked against the view -/
+def setAtV (b : Bytes) (lo hi i : Int) (v : UInt8) : Bytes :=
+  if 0 ≤ lo ∧ lo ≤ hi ∧ hi ≤ len b ∧ 0 ≤ i ∧ i < hi - lo then b.set (lo + i).toNat v else []
+
+/-- `subtle.ConstantTimeCompare(a, b)`: 1 if equal (lengths included), else 0 -/
+def ctCompare (a b : Bytes) : Int := if a = b then 1 else 0
+
 /-- `for i := 0; i < n; i++ { s = f s i }` -/
 def forRange {σ : Type} (n : Int) (init : σ) (f : σ → Int → σ) : σ :=
   (List.range n.toNat).foldl (fun s k => f s (Int.ofNat k)) init
+
+/-! ### general loops: bodies that can `return`, `break`, `continue`; while loops with fuel -/
+
+/-- outcome of one loop iteration: go on with state `s`, leave the loop (`break`) with `s`, or `return r` -/
+inductive Step (ρ σ : Type) where
+  | next (s : σ)
+  | brk (s : σ)
+  | ret (r : ρ)
+
+/-- `for i := range l { … }` over an explicit index list: an early `return` value (if any) and the last state -/
+def forSteps {ρ σ : Type} (l : List Int) (init : σ) (f : σ → Int → Step ρ σ) : Option ρ × σ :=
+  match l with
+  | [] => (none, init)
+  | i :: rest =>
+    match f init i with
+    | .next s => forSteps rest s f
+    | .brk s => (none, s)
+    | .ret r => (some r, init)
+
+/-- `for cond { … }` / `for { … }` with at most `fuel` iterations (the condition is part of `f`: `brk` when false).
+    Tie theorems are stated for every sufficiently large `fuel`, which also shows that the Go loop terminates. -/
+def whileSteps {ρ σ : Type} (fuel : Nat) (init : σ) (f : σ → Step ρ σ) : Option ρ × σ :=
+  match fuel with
+  | 0 => (none, init)
+  | n + 1 =>
+    match f init with
+    | .next s => whileSteps n s f
+    | .brk s => (none, s)
+    | .ret r => (some r, init)
+
+/-- `for i, x := range l { … }` over a list of values, `i` counting from `start` -/
+def forEachSteps {α ρ σ : Type} (l : List α) (start : Int) (init : σ) (f : σ → Int → α → Step ρ σ) : Option ρ × σ :=
+  match l with
+  | [] => (none, init)
+  | x :: rest =>
+    match f init start x with
+    | .next s => forEachSteps rest (start + 1) s f
+    | .brk s => (none, s)
+    | .ret r => (some r, init)
+
+/-- indices of `for i := a; i < b; i++` -/
+def rangeUp (a b : Int) : List Int := (List.range (b - a).toNat).map (fun k => a + Int.ofNat k)
+
+/-- indices of `for i := a; i >= b; i--` -/
+def rangeDown (a b : Int) : List Int := (List.range (a - b + 1).toNat).map (fun k => a - Int.ofNat k)
 
 end TinkVerif.GoSem
